@@ -40,6 +40,8 @@ class Modes(Stage):
                     c += d.choice([' ünïcödé', ' 日本語', ' €', ' →'])
                 if d.chance(0.15):
                     c = 'progress 10%\rprogress 50%\r' + c      # programs redraw a line with a bare carriage return
+                if d.chance(0.1):
+                    c = c + ' bad byte \ue000 here'      # placeholder for a byte that is not valid UTF-8 (put in after encoding)
                 if d.chance(0.12):
                     # characters that str.splitlines() treats as line ends but a text stream does not
                     c = c + d.choice(['\x0c', '\x0b', '\x1c', '\x1d', '\x1e', '\x85', '\u2028', '\u2029']) + 'tail'
@@ -49,15 +51,15 @@ class Modes(Stage):
             lines.append(gen_chatter(d)[:300])
         final_newline = d.chance(0.7) or lines[-1].strip() == ''
         text = '\n'.join(lines) + ('\n' if final_newline else '')
-        data = text.encode('utf-8')
+        data = text.encode('utf-8').replace('\ue000'.encode('utf-8'), b'\xff')
         return dict(text=text, chunks=[gen_chunks(d, data), gen_chunks(d, data)], exit=d.choice([0, 0, 1, 2, 7, 99, 127, 255, d.int(0, 255)]),
                     argv=[d.choice(ARGS) for _ in range(d.int(0, 5))], marker=d.int(0, 9999), supress=d.chance(0.2), filter=d.choice([None, None, 'wl_display', '* ! .bind']),
-                    linger=d.choice([0, 0, 0, 0, 0, 0, 0, 1.3]), nmsg=len(specs), exe=d.choice([None, None, None, 'child prog', 'a "b" c', 'back\\slash', 'x y z']), brk=d.choice([None, None, None, '.sync', 'wl_registry, wl_display', '*', 'wl_display ! .sync', '.bind']), parent_wayland_debug=d.choice([None, None, '1', 'client', 'server', '0', '']))
+                    linger=d.choice([0, 0, 0, 0, 0, 0, 0, 1.3]), nmsg=len(specs), hashseeds=[d.int(0, 4000) for _ in range(4)], exe=d.choice([None, None, None, 'child prog', 'a "b" c', 'back\\slash', 'x y z']), brk=d.choice([None, None, None, '.sync', 'wl_registry, wl_display', '*', 'wl_display ! .sync', '.bind']), parent_wayland_debug=d.choice([None, None, '1', 'client', 'server', '0', '']))
 
     def execute(self, case):
         res = Result()
         res.evals = 0
-        data = case['text'].encode('utf-8')
+        data = case['text'].encode('utf-8').replace('\ue000'.encode('utf-8'), b'\xff')
         opts = ['-C']
         if case.get('supress'): opts.append('--supress')
         if case.get('filter'): opts += ['-f', case['filter']]
@@ -73,8 +75,11 @@ class Modes(Stage):
                 for variant in (case['exe'].split(), case['exe'].replace('\\', '').split(), case['exe'].replace('"', '').split()):
                     if variant and variant[0] != case['exe'] and not os.path.exists(sc.path(variant[0])):
                         sc.write(variant[0], '#!' + cli.PY + '\n' + cli.CHILD, exe=True)
-            rc_f, out_f, err_f = cli.run_main(opts + ['-l', log], stdin=b'q\n')
-            rc_p, out_p, err_p = cli.run_main(opts + ['-p'], stdin=data)
+            # every run is a process of its own: Python's string hashing differs from process to process (PYTHONHASHSEED is random
+            # unless set), which must not show in the display
+            hs = [dict(PYTHONHASHSEED=str(x)) for x in (case.get('hashseeds') or [0, 0, 0, 0])]
+            rc_f, out_f, err_f = cli.run_main(opts + ['-l', log], stdin=b'q\n', extra_env=hs[0])
+            rc_p, out_p, err_p = cli.run_main(opts + ['-p'], stdin=data, extra_env=hs[1])
             res.evals += 2
             if rc_f is None or rc_p is None:
                 res.label('timeout(inconclusive)')      # a slow run is never a violation
@@ -109,7 +114,7 @@ class Modes(Stage):
                 report = sc.path('report%d.json' % k)
                 linger = case.get('linger', 0) if k == 0 else 0
                 spec = sc.write('spec%d.json' % k, json.dumps(dict(report=report, chunks=chunks, exit=case['exit'], stdout=marker, linger=linger)))
-                extra = dict(WDV_CHILD_SPEC=spec)
+                extra = dict(hs[2 + k], WDV_CHILD_SPEC=spec)
                 if case.get('parent_wayland_debug') is not None:
                     extra['WAYLAND_DEBUG'] = case['parent_wayland_debug']     # wayland-debug itself started from such an environment
                 rc, out, err = cli.run_main(opts + ['-r'] + command + case['argv'], stdin=b'r\n' * (case['nmsg'] + 2 if case.get('brk') else 0) + b'q\n', extra_env=extra)
@@ -154,6 +159,7 @@ class Modes(Stage):
         if case['exit']: res.label('non-zero-exit')
         if not case['text'].endswith('\n'): res.label('no-final-newline')
         if any(ord(c) > 127 for c in case['text']): res.label('multi-byte')
+        if '\ue000' in case['text']: res.label('undecodable-byte-in-chatter')
         if case.get('brk'): res.label('with -b')
         if case.get('exe') and not case['argv']: res.label('program-is-one-word')
         if '\r' in case['text']: res.label('carriage-return-in-chatter')
